@@ -43,4 +43,5 @@ def post_adjust(case):
     return case
 
 
+SWEEP = (8, 120)
 install(globals(), ID, 3000, 40000)
